@@ -1,5 +1,6 @@
 import RsModel.Model.Stream
 import RsModel.Lemmas.ProvTree3
+import RsModel.Lemmas.ReplaceOrig
 /-!
 # C04 — mappings point to where the text really came from
 (leaf level: an OriginalSource maps every token to its own position; the composites are tied by correspondence)
@@ -96,5 +97,38 @@ example : (Src.concat (.cons (.orig [120, 59, 10, 121] [97]) (.cons (.rawStr [59
   constructor
   · exact ⟨trivial, trivial, trivial, trivial⟩
   · decide
+
+/-! ## ReplaceSource over an OriginalSource -/
+
+/-- **C04, ReplaceSource over an (ASCII) OriginalSource, chunk stream**: every chunk the ReplaceSource delivers is unmapped, or
+reports source 0 at the *true* line and column, in the original text `T`, of byte `k + p` — `k` being the start of a potential
+token `tok` of `T` and `p < |tok|` the offset inside it at which the delivered piece was cut (or replacement content spliced in).
+Chain: token positions of the OriginalSource (C02) ∘ token lies in its line ∘ the recorded content spells out the chunk (`FM`) ∘
+the advance rule of `ReplaceSource` (C06). -/
+theorem c04_replace_original_stream (T name : Text) (ha : IsAscii T) (hl : T.length < USIZE_MAX) (rs : List Repl) (final : Bool) (σ : Store) :
+    ∀ t' mm, Ev.chunk t' mm ∈ ((Src.replace (.orig T name) rs).stream ⟨true, final⟩ σ).1.evs →
+      mm.orig = none ∨ ∃ tok k p y, k + p < T.length ∧ p < tok.length ∧ tok <+: T.drop k ∧ TokOK tok ∧ mm.orig = some y ∧ y.src = 0
+        ∧ adv startPos (T.take (k + p)) = ⟨y.line, y.col⟩ :=
+  replace_original_true T name ha hl (sortRepls rs)
+
+/-- **C04, the same through `map()`**: whatever the SourceMap `get_map` returns for the ReplaceSource resolves a byte of `source()`
+to, is source 0 at a real position (line, column of some byte) of the original text.
+PARTIAL (w.r.t. the property): says the position exists in the original, not which replacement-free byte it is the image of; that
+clause is decided by the correspondence check + provenance oracle. -/
+theorem c04_replace_original_map (T name : Text) (ha : IsAscii T) (hl : T.length < USIZE_MAX) (rs : List Repl)
+    (hr : ∀ r ∈ rs, r.start ≤ r.stop) (hlen : (replaceSource T rs).length + 1 < 2 ^ 32) (final : Bool)
+    (hsmall : ∀ m ∈ chunkMs ((Src.replace (.orig T name) rs).stream ⟨true, true⟩ []).1.evs, m.small)
+    (sm : SMap) (hm : (getMap (.replace (.orig T name) rs) ⟨true, final⟩ []).1 = some sm) :
+    ∀ o, some o ∈ attrFrom (decode sm.mappings) startPos (replaceSource T rs) → TruePos T o :=
+  replace_original_map T name ha hl rs hr hlen final hsmall sm hm
+
+/-- non-vacuity: replacing `b` in `"abc\nd"` by `"XY"` delivers the replacement content mapped to (1, 1) — where `b` stood — and the
+rest of the token, `"c\n"`, mapped to (1, 2) although it is delivered at generated column 3 -/
+example : (replaceStream (sortRepls [⟨1, 2, [88, 89], none, 1⟩]) (streamOriginal [97, 98, 99, 10, 100] [102] ⟨true, false⟩)).evs
+    = [.source 0 [102] (some [97, 98, 99, 10, 100]),
+       .chunk (some [97]) ⟨1, 0, some ⟨0, 1, 0, none⟩⟩,
+       .chunk (some [88, 89]) ⟨1, 1, some ⟨0, 1, 1, none⟩⟩,
+       .chunk (some [99, 10]) ⟨1, 3, some ⟨0, 1, 2, none⟩⟩,
+       .chunk (some [100]) ⟨2, 0, some ⟨0, 2, 0, none⟩⟩] := by decide
 
 end Rs
